@@ -11,7 +11,7 @@ def unit(name, kind, tracked=0, entries=None):
     )
 UNITS = [unit('hashmap', 1), unit('hashset', 2), unit('poolmap', 3),
          dict(name='strhash', harness='harness/c02_strhash.cpp', sources=['repo:src/Memory.cpp', 'repo:src/String.cpp'],
-              defines={'quick': {'VF_SL': 2}, 'thorough': {'VF_SL': 3}}, entries=['strhash'], opts={'all': {'unwind': 64, 'timeout_ms': 5000}},
+              defines={'quick': {'VF_SL': 2}, 'thorough': {'VF_SL': 2}}, entries=['strhash'], opts={'all': {'unwind': 64, 'timeout_ms': 30000}},
               split={'quick': 8, 'thorough': 16}, budget={'quick': 280, 'thorough': 2600}, validate=['strhash'])]
 BOUNDS = {
     'quick': 'two tables with capacities in {1,2} (plus 0->1, 7, 500 in the capacities entry); histories of <= 2 operations after a pre-fill of <= 1, one operation from pre-fills of 0..2/0..1 distinct entries (thorough: 0..3/0..2); keys 32-bit symbolic, each distinct key value gets every hash residue modulo lcm(capacities) (every bucket layout incl. all-colliding); values 32-bit symbolic',
